@@ -99,7 +99,7 @@ def solver_level(ctx):
         out["v"] = oc.validate(ctx, nat_traces, mech, oc.INV_C10_STEP, "C10 natural runs")
     thunks = [lambda: oc.model_check(ctx, sb, mech, oc.INV_C10_STEP, "SpecStep", "ViewStep",
                                      f"OpsCache/SpecStep[C10, refresh trigger of the code under test: {trig}]",
-                                     required=["Ctor", "FieldStep", "TrigRefresh", "TrigSkip", "Links", "NoLinks", "Euler",
+                                     required=["Ctor", "FieldStep", "TrigRefresh", "TrigSkip", "Links", "NoLinks", "EulerStep",
                                                "InducedStep", "Finish"]),
               lambda: ctx.model_check("OpsCache", oc.cfg_text(small, oc.PINNED, ["OperatorsMatchLatestA"], "SpecStep", view="ViewStep"),
                                       name="OpsCache/SpecStep[compare-with-previous-step trigger must violate OperatorsMatchLatestA]",
